@@ -328,6 +328,11 @@ def wide_exprs(n: Names, tier: str = "quick") -> list[tuple]:
         out.append(("ternary", FL(S("y"), flt("upcase")), c, S("n"), (flt("append", S("!")),), ()))
         out.append(("ternary", FL(V(g), flt("default", I(0))), c, V(h), (), (flt("json"), flt("size"))))
         out.append(("ternary", FL(I(1)), c, NIL, (flt("default", S("d")), flt("upcase")), (flt("prepend", S(">")),)))
+        # no else branch: the tail filters apply whichever way the condition goes
+        out.append(("ternary", FL(V(a)), c, None, (), (flt("default", S("x")),)))
+        out.append(("ternary", FL(V(g), flt("append", S("!"))), c, None, (), (flt("size"), flt("plus", V(g)))))
+    # one-item array literals
+    out += [FL(("array", (V(arr),))), FL(("array", (V(arr),)), flt("size")), FL(("array", (S("a"),)), flt("join", S("+")))]
     return out
 
 
